@@ -38,6 +38,7 @@ func checkC06(c *Ctx, r *Report) {
 	borrow(c, r, c07R1, "C07.R1.gate-writes", "C06.R5.include-depth", 3, "an included file's parser gets the includer's depth plus one, and nothing else changes a depth", nil, "sibling $INCLUDE directives count as nesting: the 8th include of a flat zone file is refused as too deeply nested and the rest of the zone is lost")
 	borrow(c, r, c05R2b, "C05.R2.lexer-type-state", "C06.R6.lexer-type-state", 3, "every way the lexer classifies a token as a record type also records that the type was seen", nil, "after a type written as TYPEnnn the RDATA words are still read as keywords, and a line the mnemonic spelling parses is refused")
 	absoluteValidated(c, r, "C06.R1.absolute-validated", "a relative name is completed with the origin without the result being validated as a whole (or it is validated by something other than IsDomainName): names whose completed form is legal are refused, or illegal ones returned")
+	ownerOnlyAtRecordEnd(c, r, "C06.R2.owner-at-record-end")
 }
 
 // mustPassExit is mustPass restricted to the exits accepted by isExit.
